@@ -272,6 +272,11 @@ func TestC12(t *testing.T) {
 					*v = gen.Quoted(rapid.SampledFrom(jsonHostile).Draw(rt, "jhs"))
 				}
 			}
+			if n.V != nil && rapid.IntRange(0, 11).Draw(rt, "escpat") == 0 {
+				// words mixing escapes and wildcard characters (the decoder has to infer
+				// the same leaf kind from the text as the parser did)
+				n.V = gen.RawWord(rapid.SampledFrom([]string{`b\\*`, `a\*b*`, `c\:\\dir\\?`, `x\\?y`, `a\*b`, `what\?`, `\*`, `\\`, `p\/q*`, `\/x\/`, `b\\\\*`, `k\\\*`}).Draw(rt, "ep"))
+			}
 			if n.V != nil && n.K != gen.NCmp && rapid.IntRange(0, 11).Draw(rt, "weird") == 0 {
 				n.V = gen.RawWord(rapid.SampledFrom(gen.WeirdNumerics).Draw(rt, "wn"))
 			}
